@@ -20,12 +20,14 @@ TRUSTED_BASE = l3common.TRUSTED_L3 + ["symbolic links inside the working tree ar
 
 
 def quote(name):
-    """C-quote a name, octal-escaping a random subset of bytes"""
-    return b'"' + b"".join(b"\\%03o" % c if c in b'./"\\' and (c * 7) % 3 != 0 else bytes([c]) for c in name) + b'"'
+    """C-quote a name, octal-escaping a random subset of bytes (bytes above 127 sometimes raw, sometimes escaped)"""
+    return b'"' + b"".join(b"\\%03o" % c if (c in b'./"\\' and (c * 7) % 3 != 0) or (c >= 128 and c % 2) else bytes([c])
+                           for c in name) + b'"'
 
 
 def evil_names(rng, outer_abs):
-    t = rng.choice([b"victim", b"sent/victim", b"newfile"])
+    # (names that are not valid UTF-8 are file names like any other)
+    t = rng.choice([b"victim", b"sent/victim", b"newfile", b"victim-\xe9", b"new-\xff\xfe", b"sent/victim-\xe9"])
     forms = [
         b"../" + t, b"../../" + t, b"../../../" + t, b"d/../../" + t, b"./../" + t, b"d//..//../" + t, b"d/./.././../" + t,
         outer_abs + b"/" + t, b"/" + outer_abs.lstrip(b"/") + b"/" + t, b"//" + outer_abs.lstrip(b"/") + b"/" + t,
@@ -90,10 +92,11 @@ def run_in_sentinel(ctx, w, cfg):
     outer = os.path.join(top, "outer")
     wsd = os.path.join(outer, "l1", "ws")
     os.makedirs(wsd)
-    sent = {"victim": b"secret\n", "sent/victim": b"secret\n", "l1/victim": b"secret\n", "l1/sent/victim": b"secret\n"}
+    sent = {b"victim": b"secret\n", b"sent/victim": b"secret\n", b"l1/victim": b"secret\n", b"l1/sent/victim": b"secret\n",
+            b"victim-\xe9": b"secret\n", b"l1/victim-\xe9": b"secret\n", b"sent/victim-\xe9": b"secret\n", b"l1/sent/victim-\xe9": b"secret\n"}
     for p, d in sent.items():
-        os.makedirs(os.path.dirname(os.path.join(outer, p)), exist_ok=True)
-        open(os.path.join(outer, p), "wb").write(d)
+        os.makedirs(os.path.dirname(os.path.join(outer.encode(), p)), exist_ok=True)
+        open(os.path.join(outer.encode(), p), "wb").write(d)
     # the workspace itself
     ws.write_tree(wsd, {k: v for k, v in w["files"].items()})
     os.makedirs(os.path.join(wsd, "patches"))
